@@ -61,6 +61,9 @@ CHECKS = {
  "C15": ("model_checking", "bounded-exhaustive enumeration of token streams (grammar + all single-token mutations) against an independent segmentation recogniser; exhaustive (hook-subset, item form, hook behaviour) table against the documented routing chain",
          "odometer", "parse_meta_list agrees with the recogniser on accept/reject, item count, order, class and token text and is a print/re-parse fixpoint; for all 128 subsets of overridden hooks every item form reaches exactly the documented hook or the documented default rejection, and hook errors come back spanned with the item unless pre-spanned",
          "a chunk is an item iff syn parses it wholly as Lit or Meta; lists of <= 2 (quick) / 3 (thorough) items over 34 forms", "DESIGN.md §4 C15"),
+ "C19": ("exploration", "bounded-exhaustive enumeration of types built as constructor spines with parameters planted at known use / non-use positions x all query sets x both purposes; generic receivers x skip patterns through the six derives",
+         "odometer", "the usage analysis returns exactly the planted uses intersected with the queried set, for type parameters and lifetimes, and the union for collections; every emitted impl repeats generics and where-clause and adds the conversion bound to exactly the declared parameters used by parsed fields",
+         "use-sets known by construction; spine depth 1 (quick) / 2 (+3 reduced) (thorough)", "DESIGN.md §4 C19"),
 }
 PENDING = {}
 props = [json.loads(l) for l in open(os.path.join(V, "properties.jsonl"))]
